@@ -98,8 +98,43 @@ def decrypt_attr(ref, master, enc):
     return ref.try_out("CIPHER", alg="AES-256/CBC/PKCS7", dir="dec", key=master, iv=enc[:16], **{"in": enc[16:]})
 
 
+def read_token_db(tokdir):
+    """the SQLite store (sqlite3.db): same shape as read_token_dir; object names are 'object-<id>', the token object is id 1.
+    Independent of the library: read with Python's sqlite3 module from a private copy of the database file."""
+    import sqlite3, shutil, tempfile
+    out = {"token": None, "objects": {}, "errors": {}, "files": sorted(os.listdir(tokdir))}
+    tmp = tempfile.mkdtemp(prefix="storefmt-db.")
+    try:
+        for f in out["files"]:
+            if f.startswith("sqlite3.db"):
+                shutil.copy(os.path.join(tokdir, f), tmp)
+        try:
+            con = sqlite3.connect(os.path.join(tmp, "sqlite3.db"))
+            ids = [r[0] for r in con.execute("select id from object order by id")]
+            objs = {i: {} for i in ids}
+            for table, kind, conv in (("attribute_boolean", 1, lambda v: bool(v)), ("attribute_integer", 2, lambda v: int(v) & 0xFFFFFFFFFFFFFFFF), ("attribute_binary", 3, lambda v: bytes(v) if v is not None else b""),
+                                      ("attribute_array", 5, lambda v: bytes(v) if v is not None else b"")):
+                for oid, t, v in con.execute("select object_id, type, value from %s" % table):
+                    if oid in objs:
+                        objs[oid][int(t)] = (kind, conv(v))
+            con.close()
+        except Exception as e:      # sqlite3.Error and friends
+            out["errors"]["sqlite3.db"] = str(e)
+            return out
+        for i, attrs in objs.items():
+            if i == 1 and OS_TOKENLABEL in attrs or (OS_SOPIN in attrs):
+                out["token"] = attrs
+            else:
+                out["objects"]["object-%d" % i] = attrs
+        return out
+    finally:
+        shutil.rmtree(tmp, ignore_errors=True)
+
+
 def read_token_dir(tokdir):
     """-> {'token': attrs of token.object, 'objects': {filename: attrs}, 'errors': {...}, 'files': [...]}"""
+    if os.path.exists(os.path.join(tokdir, "sqlite3.db")):
+        return read_token_db(tokdir)
     out = {"token": None, "objects": {}, "errors": {}, "files": sorted(os.listdir(tokdir))}
     for f in out["files"]:
         if not f.endswith(".object"):
